@@ -28,6 +28,7 @@ func init() {
 			{Name: "quiescence", N: core.TierN(60, 1200), Batch: 10, Run: c04Quiescence},
 			{Name: "directed-lost-wakeup", N: core.TierN(24, 300), Batch: 6, Run: c04Directed},
 			{Name: "fixed-max", N: core.TierN(30, 400), Batch: 10, Run: c04Fixed},
+			{Name: "window-commit-with-blocked-getters", N: core.TierN(24, 300), Batch: 6, Run: c04Getters},
 			{Name: "fixed-consumed-prefix", N: core.TierN(20, 200), Batch: 10, Run: c04FixedPrefix},
 		},
 	})
@@ -397,6 +398,81 @@ func c04FixedPrefix(c *core.Ctx) {
 	}
 	c.Op("final_change", 1)
 	c.Sig(cs.String(), cooldown, k, n2, inWindow)
+	if c.Index < 1 {
+		c.SetHistory(desc)
+	}
+}
+
+// c04Getters: other consumers that are caught up sit blocked in Get (they share the buffer's cond with the cleanup
+// goroutine) while the slowest consumer's final commit lands inside a cooldown window: the re-check at the end of the
+// window must reach the cleanup goroutine whatever the order in which the waiters re-queued.
+func c04Getters(c *core.Ctx) {
+	cooldown := core.Pick(c.Rng, 5*time.Millisecond, 10*time.Millisecond, 20*time.Millisecond)
+	b := newBuffer(cleanerSpec{}, cooldown, nil)
+	defer b.Close()
+	p := c.NewPerturb(core.PerturbOpts{P: core.Pick(c.Rng, 0, 0.2, 0.5), MaxSleep: 100 * time.Microsecond})
+	defer p.Stop()
+	g := 1 + c.Rng.IntN(4)
+	stop, stopGetters := context.WithCancel(context.Background())
+	defer stopGetters()
+	caught := make([]atomic.Int64, g)
+	done := make([]<-chan struct{}, g)
+	for i := 0; i < g; i++ {
+		cons, _ := b.NewConsumer()
+		i := i
+		done[i] = core.Go(func() {
+			defer cons.Close()
+			for {
+				if _, err := cons.Get(stop); err != nil {
+					return
+				}
+				cons.Commit()
+				caught[i].Add(1)
+			}
+		})
+	}
+	slow, _ := b.NewConsumer()
+	defer slow.Rollback()
+	n := 2 + c.Rng.IntN(3)
+	for i := 0; i < n; i++ {
+		b.Put(context.Background(), i)
+	}
+	if !core.WaitUntil(5000, func() bool {
+		for i := range caught {
+			if caught[i].Load() != int64(n) {
+				return false
+			}
+		}
+		return true
+	}) {
+		c.Inconclusive("getters did not catch up")
+		return
+	}
+	time.Sleep(cooldown*2 + time.Millisecond) // quiescent: no cooldown timer pending, getters blocked in Get
+	fired0 := p.Hits("buffer.cleanup.timer")
+	// first commit: applied at once, opens a cooldown window; the remaining commits land inside it
+	slow.Get(context.Background())
+	slow.Commit()
+	time.Sleep(time.Duration(c.Rng.IntN(int(cooldown / 2))))
+	for i := 1; i < n; i++ {
+		slow.Get(context.Background())
+	}
+	slow.Commit() // the final change
+	inWindow := p.Hits("buffer.cleanup.timer") == fired0
+	desc := fmt.Sprintf("cooldown=%s blocked_getters=%d values=%d final_commit_inside_window=%v", cooldown, g, n, inWindow)
+	awaitReclaim(c, b, 0, cooldown, desc)
+	stopGetters()
+	for i := range done {
+		core.AwaitDone(done[i], 5000)
+	}
+	if inWindow {
+		c.Nontrivial()
+		c.R.WinHit++
+	} else {
+		c.R.WinMissed++
+	}
+	c.Op("final_change", 1)
+	c.Sig("getters", cooldown, g, n, inWindow)
 	if c.Index < 1 {
 		c.SetHistory(desc)
 	}
